@@ -1,3 +1,8 @@
+#include <dsplib/array.h>
+#include <cmath>
+#define private public      // harness-only: lets h_tuner_step start from an arbitrary sample counter
+#include <dsplib/tuner.h>
+#undef private
 #include "C06.cpp"
 HX int h_hilbert(const double* x, int n, double* y) { H_TRY arr_cmplx r = hilbert(mk_real(x, n)); put_cmplx(r, y); return r.size(); H_END }
 HX int h_hilbert_n(const double* x, int nx, int n2, double* y) { H_TRY arr_cmplx r = hilbert(mk_real(x, nx), n2); put_cmplx(r, y); return r.size(); H_END }
@@ -7,3 +12,16 @@ HX int h_stream(int kind, const int* ip, const double* dp, const double* c, int 
     int k = A->run(x, n1, y); if (n2 > 0) k += A->run(x + in_w * n1, n2, y + k); if (n3 > 0) k += A->run(x + in_w * (n1 + n2), n3, y + k); return k; H_END
 }
 HX int h_hilb_taps(int flen, double tw, double* h, int cap) { H_TRY HilbertFilter f(flen, tw); const arr_real& a = f.impz(); for (int i = 0; i < a.size() && i < cap; ++i) h[i] = a[i]; return a.size(); H_END }
+
+// one sample from an arbitrary sample-counter state (constructor runs normally, then the counter is set); returns the new counter, out = {re, im, wraps}
+HX int h_tuner_step(int fs, double f, int phase0, double xr, double xi, double* out) {
+    H_TRY Tuner t(fs, f); t._phase = phase0; arr_cmplx x{cmplx_t{xr, xi}}; arr_cmplx r = t.process(x);
+    out[0] = r[0].re; out[1] = r[0].im; out[2] = double(t._wraps); return t._phase; H_END
+}
+// replay through the public interface only: k+1 unit samples in blocks, out = the output for sample index k
+HX int h_tuner_at(int fs, double f, int k, double* out) {
+    H_TRY Tuner t(fs, f); const int B = 8192; arr_cmplx blk(B); for (int i = 0; i < B; ++i) blk[i] = cmplx_t{1.0, 0.0};
+    long long done = 0; cmplx_t last{0, 0};
+    while (done <= k) { const int m = int(std::min<long long>(B, (long long)k + 1 - done)); arr_cmplx r = (m == B) ? t.process(blk) : t.process(arr_cmplx(blk.slice(0, m))); last = r[m - 1]; done += m; }
+    out[0] = last.re; out[1] = last.im; return 1; H_END
+}
